@@ -1018,3 +1018,62 @@ def explore(ctx: Ctx, f: FunctionInfo, starts: Iterable[int], env: Optional[Dict
             if l in NORMAL:
                 work.append((d, store, asm))
     return results
+
+
+def call_keywords(ctx: Ctx, f: FunctionInfo, n: Node) -> Dict[str, List[ast.AST]]:
+    """Keyword arguments of a call node, with `**name` expanded when every reaching definition of `name` is a dict display
+    (or a conditional expression of dict displays) with constant keys: {keyword: [possible value expressions]}.
+    The pseudo-key '**?' marks an expansion that could not be resolved."""
+    out: Dict[str, List[ast.AST]] = {}
+    a = n.ast
+    if not isinstance(a, ast.Call):
+        return out
+    g = ctx.cfg(f)
+
+    def add_dict(d: ast.AST) -> bool:
+        if isinstance(d, ast.IfExp):
+            return add_dict(d.body) and add_dict(d.orelse)
+        if isinstance(d, ast.Dict):
+            for k, v in zip(d.keys, d.values):
+                if k is None:
+                    if not expand(v):
+                        return False
+                elif isinstance(k, ast.Constant) and isinstance(k.value, str):
+                    out.setdefault(k.value, []).append(v)
+                else:
+                    return False
+            return True
+        if isinstance(d, ast.Call) and isinstance(d.func, ast.Name) and d.func.id == "dict" and not d.args:
+            for kw in d.keywords:
+                if kw.arg is None:
+                    return False
+                out.setdefault(kw.arg, []).append(kw.value)
+            return True
+        return False
+
+    def expand(x: ast.AST) -> bool:
+        if isinstance(x, (ast.Dict, ast.IfExp)):
+            return add_dict(x)
+        if isinstance(x, ast.Name):
+            defs = ctx.rd(f).reaching(n.id, x.id)
+            if not defs or g.entry in defs:
+                return False
+            ok = True
+            for d in defs:
+                dn = g.nodes[d]
+                if isinstance(dn.ast, ast.Assign) and len(dn.ast.targets) == 1 and isinstance(dn.ast.targets[0], ast.Name):
+                    ok = add_dict(dn.ast.value) and ok
+                elif isinstance(dn.ast, ast.Assign) and isinstance(dn.ast.targets[0], ast.Subscript) \
+                        and isinstance(dn.ast.targets[0].slice, ast.Constant):
+                    out.setdefault(str(dn.ast.targets[0].slice.value), []).append(dn.ast.value)
+                else:
+                    ok = False
+            return ok
+        return False
+
+    for kw in a.keywords:
+        if kw.arg is not None:
+            out.setdefault(kw.arg, []).append(kw.value)
+        elif not expand(kw.value):
+            out.setdefault("**?", []).append(kw.value)
+    return out
